@@ -185,6 +185,11 @@ func (p *Processor) Count(h bitcoin.Hash32) int {
 	defer p.mu.Unlock()
 	return p.Txs[h]
 }
+func (p *Processor) SavedCount(h bitcoin.Hash32) int {
+	p.mu.Lock()
+	defer p.mu.Unlock()
+	return p.Saved[h]
+}
 func (p *Processor) Total() int {
 	p.mu.Lock()
 	defer p.mu.Unlock()
